@@ -1,4 +1,5 @@
 import ZmqVerif.Lemmas.WorldMaps
+import ZmqVerif.Lemmas.WorldReqRecv
 /-!
 # C08 — REQ/REP lock-step: one outstanding request, the reply goes to its requester
 
@@ -141,5 +142,26 @@ theorem C08_rep_routes (w : World) (sid : Nat) (s : Socket) (m : Msg) (k : Ident
       injection h2 with h2; subst h2; rw [hpipe]; exact hj
     · exact hjr
     · exact hjq
+
+/-- **REQ `recv` against the awaited peer's byte stream**: REQ reads only the connection its outstanding request
+went to; a poll is `Pending` only if that connection's stream holds no complete item (the reader is where it was and
+the request marker stays — the recv is still owed), otherwise it consumes EXACTLY the first item of that stream: a
+message is returned with its delimiter removed or rejected with one error; end of stream and stream errors are
+reported with nothing complete left; no other pipe's waiting bytes are touched — so every client gets the replies
+to its own requests, in the order its server wrote them, and nobody else's. -/
+theorem C08_world_req_recv (w : World) (sid : Nat) (s : Socket) (hs : getSock w sid = some s)
+    (k : Ident) (hc : s.current = some k) (rd : Rd) (hk : ilookup s.reqRd k = some rd)
+    (w' : World) (o : POut) (h : reqRecvPoll w sid = (w', o)) :
+    (∀ j, j ≠ rd.pipe → inbufOf w'.pipes j = inbufOf w.pipes j) ∧
+    (match o with
+     | .pending => rd.items w.pipes = [] ∧
+         ∃ s' rd', getSock w' sid = some s' ∧ s'.current = some k ∧ ilookup s'.reqRd k = some rd' ∧
+           rd'.rem w'.pipes = rd.rem w.pipes
+     | .ready (.okMsg r) => ∃ m rest, rd.items w.pipes = .message m :: rest ∧ reqUnwrap m = some r
+     | .ready (.err _) =>
+         rd.items w.pipes = [] ∨ (∃ i rest, rd.items w.pipes = i :: rest ∧
+           (∀ m, i = .message m → reqUnwrap m = none))
+     | _ => False) :=
+  reqRecvPoll_spec w sid s hs k hc rd hk w' o h
 
 end Zmq.C08
